@@ -40,6 +40,18 @@ Step ==
   /\ l <= Len(Rec)
   /\ l' = l + 1
   /\ IF E.ev = "reset" THEN seen' = <<>>
+     ELSE IF E.ev = "readat" THEN
+          \* C07: a read at heads H shows the document as it was observed when exactly the ancestors of H were applied
+          \* (on any replica, through any path); so does fork_at(H)
+          /\ UNCHANGED seen
+          /\ ("anc" \in DOMAIN E /\ E.res = "ok" /\ S(E.anc) \in DOMAIN seen) =>
+                LET was == seen[S(E.anc)] IN
+                /\ Chk("C07", "read-at-heads-equals-the-document-observed-with-exactly-those-changes",
+                       was.view = {NormObj(E.view[i]) : i \in DOMAIN E.view})
+                /\ Chk("C07", "fork-at-heads-equals-the-document-observed-with-exactly-those-changes",
+                       ("fork" \in DOMAIN E /\ "view" \in DOMAIN E.fork) =>
+                          /\ was.view = {NormObj(E.fork.view[i]) : i \in DOMAIN E.fork.view}
+                          /\ was.heads = S(E.fork.heads) /\ S(E.fork.applied) = S(E.anc))
      ELSE IF ~HasView THEN UNCHANGED seen
      ELSE LET key == S(E.obs.applied)
               o == Obs(E.obs)
